@@ -15,4 +15,5 @@ open SwayVerif.C01
 #print axioms eval_fuel_mono
 #print axioms eval_fuel_mono_skip
 #print axioms eval_outcome_unique
+#print axioms welltyped_no_stuck_partial
 #print axioms C01_partial
